@@ -154,6 +154,14 @@ func verifExpiry(rep *verifrep.R, base int64, n int) {
 			id++
 			created := now.Add(-age - time.Duration((r*7+k)%5)*time.Minute) // created earlier, active later
 			srv.CreateSession(sid, "auth", created)
+			// an earlier non-PING line, long before the one that decides (what keeps a session
+			// alive is its last line of any kind, a PING included)
+			if (r+k)%2 == 0 {
+				early := &robust.Message{Id: robust.Id{Id: id}, Session: sid, Type: robust.IRCFromClient, Data: "USER u 0 * :early", UnixNano: created.Add(time.Second).UnixNano()}
+				id++
+				srv.UpdateLastClientMessageID(early)
+				srv.ProcessMessage(early, irc.ParseMessage(early.Data))
+			}
 			// activity moves LastActivity (a PING still counts as activity)
 			line := []string{"PING x", "NICK n" + fmt.Sprint(k), "PRIVMSG #a :x"}[(r+k)%3]
 			msg := &robust.Message{Id: robust.Id{Id: id}, Session: sid, Type: robust.IRCFromClient, Data: line, UnixNano: now.Add(-age).UnixNano()}
@@ -182,8 +190,23 @@ func verifExpiry(rep *verifrep.R, base int64, n int) {
 			srv.ProcessMessage(msg, irc.ParseMessage(l))
 		}
 		wants[link] = want{true, true} // the link itself is a client session and does expire
+		// every other round the sweep runs on a node that loaded this state from a snapshot
+		sweepOn := srv
+		if r%2 == 1 {
+			data, err := srv.Marshal(id)
+			cp := verifNewServer()
+			if err == nil {
+				_, err = cp.Unmarshal(data)
+			}
+			if err != nil {
+				rep.Broken("snapshot round trip failed: " + err.Error())
+				return
+			}
+			sweepOn = cp
+			rep.Obs("expiry.sweeps-on-restored-state", 1)
+		}
 		got := map[robust.Id]bool{}
-		for _, m := range srv.ExpireSessions() {
+		for _, m := range sweepOn.ExpireSessions() {
 			if m.Type != robust.DeleteSession {
 				rep.Violation("C17", "expiry:wrong-message-type", fmt.Sprintf("ExpireSessions proposed a message of type %v", m.Type), nil)
 			}
